@@ -116,9 +116,12 @@ func (scp *Scope) Close() (err error) {
 	defer scp.mu.Unlock()
 	scp.preventDoubleClosed()
 	scp.closeStack = string(debug.Stack())
-	scp.closed = true
 	scp.appendError(scp.EventScope.Trigger(app.BeforeCloseEvent, scp))
-	if err = scp.Wait(); err != nil {
+	err = scp.Wait()
+	// the scope only counts as closed once its tasks are done: a task that is still running
+	// must be able to report its failure (AppendError/Kill/Stop) while Close waits for it
+	scp.closed = true
+	if err != nil {
 		scp.appendError(scp.EventScope.Trigger(app.BeforeRollbackEvent, scp))
 		scp.appendError(scp.EventScope.Trigger(app.RollbackEvent, scp))
 		scp.appendError(scp.EventScope.Trigger(app.AfterRollbackEvent, scp))
